@@ -2675,8 +2675,26 @@ func (m *Msg) hasAlt() bool {
 // References:
 //   - https://datatracker.ietf.org/doc/html/rfc2046#section-5.1.3
 func (m *Msg) hasMixed() bool {
-	return m.pgptype == 0 && (((len(m.parts) > 0 || len(m.embeds) > 0) && len(m.attachments) > 0) ||
+	return m.pgptype == 0 && (((m.bodyPartCount() > 0 || len(m.embeds) > 0) && len(m.attachments) > 0) ||
 		len(m.attachments) > 1)
+}
+
+// bodyPartCount returns the number of parts of the Msg that belong to the message body.
+//
+// The S/MIME signature is kept in the list of parts as well, but it is not part of the signed
+// entity. It must not influence the multipart structure, otherwise the entity that is rendered
+// for signing differs from the entity that is rendered into the multipart/signed container.
+//
+// Returns:
+//   - The number of parts that are not an S/MIME signature part.
+func (m *Msg) bodyPartCount() int {
+	count := 0
+	for _, part := range m.parts {
+		if !part.smime {
+			count++
+		}
+	}
+	return count
 }
 
 // hasSMIME determines if the Msg should be signed with S/MIME.
@@ -2711,7 +2729,7 @@ func (m *Msg) isSMIMEInProgress() bool {
 // References:
 //   - https://datatracker.ietf.org/doc/html/rfc2387
 func (m *Msg) hasRelated() bool {
-	return m.pgptype == 0 && ((len(m.parts) > 0 && len(m.embeds) > 0) || len(m.embeds) > 1)
+	return m.pgptype == 0 && ((m.bodyPartCount() > 0 && len(m.embeds) > 0) || len(m.embeds) > 1)
 }
 
 // hasPGPType returns true if the Msg should be treated as a PGP-encoded message.
